@@ -85,7 +85,8 @@ func (f *CSVFormatter) prepareLine(line interface{}) map[string]interface{} {
 	if l.Kind() == reflect.Map {
 		m := map[string]interface{}{}
 		for _, name := range l.MapKeys() {
-			m[name.Interface().(string)] = l.MapIndex(name).Interface()
+			// Keys are not always strings (like the places of a document).
+			m[fmt.Sprintf("%v", name.Interface())] = l.MapIndex(name).Interface()
 		}
 
 		return m
